@@ -106,15 +106,15 @@ def plans_for(s, ctx, sym, quick, n_tlc, n_rand):
     P = []
     # every two-piece split (files <= 4 KiB); for threaded coders and in the quick tier a seeded sample + boundaries +-1
     if n <= 4096:
-        full = (not mt) and (n <= (700 if quick else 4096))
+        full = (not mt) and (n <= (450 if quick else 4096))
         if full:
             P.append({"k": "every2", "from": 0, "to": n})
         else:
             pts = set()
             for b in bounds:
                 pts.update((b - 1, b, b + 1))
-            pts.update(rng.randrange(0, n + 1) for _ in range(24 if quick else 200))
-            for k in sorted(p for p in pts if 0 <= p <= n)[:(60 if quick else 600)]:
+            pts.update(rng.randrange(0, n + 1) for _ in range(16 if quick else 200))
+            for k in (rng.sample(sorted(p for p in pts if 0 <= p <= n), min(len([p for p in pts if 0 <= p <= n]), 45)) if quick else sorted(p for p in pts if 0 <= p <= n)[:600]):
                 P.append({"k": "two", "at": k})
     elif bounds:
         for b in rng.sample(bounds, min(len(bounds), 12)):
@@ -374,13 +374,13 @@ def run(ctx):
     # corpus
     rng = ctx.rng
     S = []
-    S += c06corpus.xz_subjects(rng, quick, 4 if quick else 60, 8 if quick else 150)
+    S += c06corpus.xz_subjects(rng, quick, 3 if quick else 60, 6 if quick else 150)
     S += c06corpus.tests_files(rng, quick)
-    S += c06corpus.lzma1_subjects(rng, quick, 3 if quick else 24)
+    S += c06corpus.lzma1_subjects(rng, quick, 2 if quick else 24)
     S += c06corpus.microlzma_subjects(rng, quick, 2 if quick else 12)
-    S += c06corpus.lzma2_subjects(rng, quick, 3 if quick else 30)
+    S += c06corpus.lzma2_subjects(rng, quick, 2 if quick else 30)
     S += c06corpus.lzip_subjects(rng, quick, 2 if quick else 12)
-    S += c06corpus.block_index_subjects(rng, quick, 2 if quick else 15)
+    S += c06corpus.block_index_subjects(rng, quick, 1 if quick else 15)
     S += c06corpus.encoder_subjects(rng, quick)
     for i, s in enumerate(S):
         s["id"] = i
